@@ -1,15 +1,23 @@
-"""Unit `vcell`: marwood/src/vm/vcell.rs — the trivial constructors / accessors other units call (verified, not assumed)."""
+"""(the as_* accessors mention `&str` consts Verus cannot ingest: their contracts are assumed here and discharged by the
+Kani harness vcell_accessors)
+Unit `vcell`: marwood/src/vm/vcell.rs — the trivial constructors / accessors other units call (verified, not assumed)."""
 
+T = ['C14', 'C06']
 UNITS = [{
     'name': 'vcell',
     'file': 'src/vm/vcell.rs',
     'uses_types': ['VCell', 'Error'],
-    'prelude': '''
+    'prelude': """
 pub assume_specification [VCell::type_text] (v: &VCell) -> (r: &'static str);
-''',
+""",
     'fns': {
         'impl VCell::undefined': {'props': [], 'ensures': ['r == VCell::Undefined']},
         'impl VCell::ptr': {'props': [], 'ensures': ['r == VCell::Ptr(val)']},
         'impl VCell::pair': {'props': [], 'ensures': ['r == VCell::Pair(car, cdr)']},
+        'impl VCell::is_pair': {'props': T, 'ensures': ['r == (*self is Pair)']},
+        'impl VCell::as_ptr': {'props': T, 'trusted': True, 'ensures': ['*self matches VCell::Ptr(p) ==> r == Ok::<usize, Error>(p)', '!(*self is Ptr) ==> r is Err']},
+        'impl VCell::as_argc': {'props': T, 'trusted': True, 'ensures': ['*self matches VCell::ArgumentCount(n) ==> r == Ok::<usize, Error>(n)', '!(*self is ArgumentCount) ==> r is Err']},
+        'impl VCell::as_car': {'props': T, 'trusted': True, 'ensures': ['*self matches VCell::Pair(a, d) ==> r == Ok::<VCell, Error>(VCell::Ptr(a))', '!(*self is Pair) ==> r is Err']},
+        'impl VCell::as_cdr': {'props': T, 'trusted': True, 'ensures': ['*self matches VCell::Pair(a, d) ==> r == Ok::<VCell, Error>(VCell::Ptr(d))', '!(*self is Pair) ==> r is Err']},
     },
 }]
